@@ -448,6 +448,34 @@ func main() {
 				if firstMaj != "" {
 					fail(si, st, "property", true, "Maj23Stable", "reported majority disappeared", firstMaj, "none")
 				}
+				// no majority: a commit assembled from what the set holds must NOT pass commit verification for any block
+				if e.typ == types.VoteTypePrecommit {
+					for name, id := range e.blocks {
+						if name == "nil" {
+							continue
+						}
+						cm := &types.Commit{BlockID: id, Precommits: make([]*types.Vote, e.n)}
+						var pw int64
+						for i := 0; i < e.n; i++ {
+							if v := vs.GetByIndex(i); v != nil {
+								cm.Precommits[i] = v
+								if v.BlockID.Equals(id) {
+									pw += e.power[i]
+								}
+							}
+						}
+						if pw == 0 {
+							continue
+						}
+						var verr error
+						p, _ := mbt.Catch(func() { verr = e.valSet.VerifyCommit(chainID, id, e.height, cm) })
+						rep.Checks++
+						rep.Count("subquorum_commits_checked")
+						if p == nil && verr == nil && !(3*pw > 2*e.total) {
+							fail(si, st, "property", true, "VerifyCommitQuorum", fmt.Sprintf("VerifyCommit accepted a commit for %s carrying %d/%d of the voting power", name, pw, e.total), nil, nil)
+						}
+					}
+				}
 				// completeness without equivocation
 				equiv := false
 				for i := 0; i < e.n; i++ {
